@@ -9,7 +9,9 @@ def run(ctx):
     r = vlib.tlc_expect_violation(ctx, "PcClose", "PcClose_asis_cex", workers=1)
     ctx.cov["asis_model"] = "counterexample found by TLC" if r.rc == 12 else "rc=%s" % r.rc
     beh = []
-    for v in ("fixed", "asis"):
+    r2 = vlib.tlc_expect_violation(ctx, "PcClose", "PcClose_early_cex", workers=1)
+    ctx.cov["early_return_model"] = "counterexample found by TLC" if r2.rc == 12 else "rc=%s" % r2.rc
+    for v in ("fixed", "asis", "workers"):
         res = vlib.tlc_model(ctx, "PcClose", "PcClose_" + v, workers=1)
         g = vlib.graph_from(res)
         paths = g.edge_cover(ctx.rng, 60, maximal=True) + g.random_walks(ctx.rng, 30 if quick else 800, 60)
@@ -21,7 +23,8 @@ def run(ctx):
                 continue
             seen.add(key)
             beh.append({"id": len(beh), "closers": ["k1", "k2", "k3"], "graceful": ["k2", "k3"], "steps": steps,
-                        "connected": len(beh) % 4 == 0, "free": False, "census": False})
+                        "connected": len(beh) % 4 == 0, "free": False, "census": False,
+                        "worker": "" if v != "workers" else ("dcmsg" if len(beh) % 4 == 0 and len(beh) % 8 == 0 else "ops")})
     if quick:
         ctx.rng.shuffle(beh)
         beh = beh[:160]
@@ -32,7 +35,7 @@ def run(ctx):
         k = 1 + j % 4
         cl = ["k%d" % (i + 1) for i in range(k)]
         beh.append({"id": len(beh), "closers": cl, "graceful": cl[j % (k + 1):], "steps": [], "connected": j % 2 == 0,
-                    "free": True, "census": False})
+                    "free": True, "census": False, "worker": ["", "ops", "dcmsg"][j % 3]})
     for j in range(6 if quick else 60):
         beh.append({"id": len(beh), "closers": [], "graceful": [], "steps": [], "connected": True, "free": False, "census": True})
     ctx.log("%d schedules + %d free-running + census runs" % (nsched, len(beh) - nsched))
